@@ -854,6 +854,112 @@ pub fn run(args: &Args, sink: &mut Sink) {
             run_seq(sink, &format!("kf:D4:{nk}"), 16, &i2, batched, &[Spec::Sort(cid)], &move |w, s| { w.pdrain(s); w.direct(s, &Op::Trunc(nlen)); w.pdrain(s); });
         }
     }
+    // ---- G. a lagged receiver: `Reset` (of non-empty and of empty contents) into every kind of stage whose view is not
+    //         empty, then every kind of source operation; capacity 1 -----------------------------------------------------
+    {
+        let mut ng = 0u64;
+        let only_small: u32 = (1 << 1) | (1 << 2) | (1 << 3) | (1 << 7); // 1, 2, 3 and 7 pass
+        let stages: Vec<Vec<Spec>> = vec![
+            vec![Spec::Head(2)], vec![Spec::Tail(2)], vec![Spec::Skip(1)], vec![Spec::Filter(only_small)], vec![Spec::FMap(only_small, 0)], vec![Spec::FMap(only_small, 2)],
+            vec![Spec::Sort(0)], vec![Spec::Sort(2)], vec![Spec::DHeadI(2, 0)], vec![Spec::DSkipI(1, 0)],
+            vec![Spec::Filter(only_small), Spec::Sort(0)], vec![Spec::Skip(1), Spec::FMap(only_small, 0)],
+        ];
+        let lag_ops: Vec<Vec<Op>> = vec![
+            vec![Op::PushB(7), Op::PushB(2)], vec![Op::PopF, Op::PushF(3)], vec![Op::PopB, Op::Clear], vec![Op::Clear, Op::PushB(1)],
+            vec![Op::Set(0, 4), Op::Rem(1)], vec![Op::PushF(5), Op::PushF(7), Op::PushF(1)],
+        ];
+        for specs in &stages {
+            let has_sort = specs.iter().any(|s| s.is_sort());
+            for lag in &lag_ops {
+                for batched in [false, true] {
+                    let after: Vec<Op> = vec![Op::PushF(2), Op::PushB(7), Op::PopF, Op::PopB, Op::Ins(1, 3), Op::Set(0, 7), Op::Set(1, 2), Op::Rem(0), Op::Rem(1), Op::Trunc(1), Op::Clear, Op::Append(vec![7, 1])];
+                    for op in after {
+                        if has_sort && matches!(op, Op::Trunc(_)) { continue; } // known finding D4
+                        ng += 1;
+                        let (lagc, opc) = (lag.clone(), op.clone());
+                        run_seq(sink, &format!("G{ng}"), 1, &[1, 4, 2, 3], batched, specs, &move |w, s| {
+                            w.pdrain(s);
+                            for o in &lagc { w.direct(s, o); }       // more than the capacity unpolled: the receiver lags
+                            w.pdrain(s);
+                            let len = w.len();
+                            match &opc { Op::Set(i, _) | Op::Rem(i) if *i >= len => {}, Op::Ins(i, _) if *i > len => {}, o => w.direct(s, o) }
+                            w.pdrain(s);
+                            w.direct(s, &Op::PushB(3));
+                            w.pdrain(s);
+                        });
+                    }
+                }
+            }
+        }
+        sink.stat_n("lag_reset_cases", ng);
+    }
+    // ---- H. a buffered second diff and a limit change: the unbatched dynamic adapters hand out the buffered diff first --
+    {
+        let mut nh = 0u64;
+        let chains: Vec<Vec<Spec>> = vec![
+            vec![Spec::DHeadI(2, 0)], vec![Spec::DTailI(2, 0)], vec![Spec::DSkipI(1, 0)],
+            vec![Spec::Skip(1), Spec::DHeadI(2, 0)], vec![Spec::Skip(1), Spec::DHeadI(2, 0), Spec::Filter(0xfe)], vec![Spec::DHeadI(3, 0), Spec::Tail(2)],
+            vec![Spec::Filter(0xfe), Spec::DTailI(2, 0)],
+        ];
+        for specs in &chains {
+            let is_tail = specs.iter().any(|s| s.is_tail());
+            for op in [Op::PushF(7), Op::Ins(1, 7), Op::PopF, Op::Rem(0), Op::Rem(1), Op::PushB(7), Op::PopB] {
+                for new in [0usize, 1, 3, 5] {
+                    // known finding D2: a dynamic Tail's limit shrinks to a non-zero value only from a limit not above the length
+                    if is_tail && new == 1 { continue; }
+                    for taken in 0..3usize {
+                        nh += 1;
+                        let opc = op.clone();
+                        run_seq(sink, &format!("H{nh}"), 16, &[1, 2, 3, 4, 5], false, specs, &move |w, s| {
+                            w.pdrain(s);
+                            w.direct(s, &opc);
+                            for _ in 0..taken { w.ppoll(s); }     // the consumer takes only some of the diffs the update maps to
+                            w.limit(s, 0, new);
+                            w.pdrain(s);
+                            w.direct(s, &Op::PushB(9));
+                            w.pdrain(s);
+                        });
+                    }
+                }
+            }
+        }
+        sink.stat_n("buffered_limit_cases", nh);
+    }
+    // ---- T. batched against unbatched through every kind of stage: transactions of three and four operations, and the
+    //         end of the source with updates still unread (C13) ---------------------------------------------------------
+    {
+        let mut nt = 0u64;
+        let stages: Vec<Vec<Spec>> = vec![vec![], vec![Spec::Head(2)], vec![Spec::Tail(2)], vec![Spec::Skip(1)], vec![Spec::Filter(0xfe)], vec![Spec::FMap(0xfe, 0)], vec![Spec::Sort(0)],
+            vec![Spec::Skip(1), Spec::Head(2)], vec![Spec::Filter(0xfe), Spec::Sort(2)]];
+        let bodies: Vec<Vec<Op>> = vec![
+            vec![Op::Set(0, 4), Op::Ins(1, 3), Op::PushB(7)], vec![Op::PushF(5), Op::PopB, Op::Set(1, 6)], vec![Op::Rem(0), Op::PushB(2), Op::PushF(3), Op::Set(2, 7)],
+            vec![Op::PushB(6), Op::PushB(7), Op::PopF], vec![Op::Ins(1, 5), Op::Rem(2), Op::Ins(0, 6), Op::PopB],
+        ];
+        for specs in &stages {
+            for body in &bodies {
+                for ending in 0..2 {
+                    let mut outs = vec![];
+                    for batched in [false, true] {
+                        nt += 1;
+                        let bc = body.clone();
+                        outs.push(run_seq(sink, &format!("T{nt}"), 16, &[1, 2, 3], batched, specs, &move |w, s| {
+                            w.pdrain(s);
+                            w.txn_begin(s);
+                            for o in &bc { w.txn_op(s, o); }
+                            w.txn_end(s, true);
+                            if ending == 1 { w.direct(s, &Op::PushB(1)); w.drop_vec(s); }
+                            w.pdrain(s);
+                        }));
+                    }
+                    if outs[0] != outs[1] {
+                        sink.oracle_fail("C13", &format!("batched and unbatched {:?} deliver different diffs for a transaction of {} operations{}: {} vs {}", specs.iter().map(|x| x.text()).collect::<Vec<_>>(), body.len(),
+                            if ending == 1 { " followed by an update and the drop of the vector" } else { "" }, fmt_diffs(&outs[1]), fmt_diffs(&outs[0])));
+                    }
+                }
+            }
+        }
+        sink.stat_n("txn_compare_cases", nt);
+    }
     // ---- L. long bursts: many source operations without a visible effect queued before one poll (capacity 128, no lag),
     //         then one with an effect, or the end of the source; a single poll must deliver / end, not stall -------------
     {
